@@ -25,14 +25,14 @@ import (
 // ---------------- chunked reader / paced consumer
 
 type chunkReader struct {
-	data   []byte
-	cuts   []int // chunk end offsets (ascending, last = len)
-	idx    int
-	pos    int
+	data        []byte
+	cuts        []int // chunk end offsets (ascending, last = len)
+	idx         int
+	pos         int
 	eofWithLast bool
 	stutter     bool
 	stutterDone bool
-	delay  func()
+	delay       func()
 }
 
 func (c *chunkReader) Read(p []byte) (int, error) {
@@ -174,10 +174,10 @@ func interleavingSig(evs []ev) string {
 var errC12Minifier = errors.New("c12 injected minifier failure")
 
 type c12Env struct {
-	m     *minify.M
-	log   *evLog
-	delay func() // seeded schedule perturbation
-	failAfter int32 // if >0: wrapped minifier fails after delegating
+	m         *minify.M
+	log       *evLog
+	delay     func() // seeded schedule perturbation
+	failAfter int32  // if >0: wrapped minifier fails after delegating
 }
 
 func newC12Env(delay func()) *c12Env {
@@ -223,10 +223,10 @@ func seededDelay(r *core.Rand, mu *sync.Mutex) func() {
 }
 
 type c12Input struct {
-	mt   string
-	name string
-	data []byte
-	ref  []byte
+	mt     string
+	name   string
+	data   []byte
+	ref    []byte
 	refErr error
 }
 
@@ -340,10 +340,10 @@ func c12RunEntry(env *c12Env, entry string, in c12Input, cuts []int, bufSize int
 // ---------------- HTTP
 
 type headerSnapshotRW struct {
-	hdr      http.Header
-	buf      bytes.Buffer
-	atFirst  http.Header // header map at the moment of the first body byte
-	status   int
+	hdr     http.Header
+	buf     bytes.Buffer
+	atFirst http.Header // header map at the moment of the first body byte
+	status  int
 }
 
 func (h *headerSnapshotRW) Header() http.Header { return h.hdr }
@@ -361,13 +361,13 @@ func (h *headerSnapshotRW) Write(p []byte) (int, error) {
 }
 
 type c12HTTPCase struct {
-	target      string
-	contentType string // "" = not set
-	setLength   bool
+	target          string
+	contentType     string // "" = not set
+	setLength       bool
 	callWriteHeader bool
-	chunks      int
-	mw          string // "ResponseWriter" | "Middleware" | "MiddlewareWithError"
-	in          c12Input
+	chunks          int
+	mw              string // "ResponseWriter" | "Middleware" | "MiddlewareWithError"
+	in              c12Input
 }
 
 func (c c12HTTPCase) String() string {
